@@ -650,6 +650,31 @@ def check(ctx):
     headers_and_tables(ctx, ld)      # the strategy tables first: they name the row wrappers the next clause looks at
     row_wrappers(ctx, ld)
     selection(ctx, ld)
+    # the formats load reads through a parser of its own: the four tabulator has no (or no sufficient) reader for.  A format tabulator
+    # reads line by line (csv, tsv, ndjson ...) that is re-routed through another parser changes what a data line is
+    ctx.run.rule('PRS', "CUSTOM-PARSERS: load.get_custom_parsers registers parsers exactly for 'xml', 'excel-xml', 'sql', 'geojson' (a table "
+                        'confirmed by reading; tabulator reads every other format itself)')
+    gcp = ld.methods.get('get_custom_parsers')
+    if gcp is None:
+        raise AnalysisError('load.get_custom_parsers not found')
+    gcn = ctx.N(gcp)
+    keys_ = set()
+    for c_ in ast.walk(gcn.node):
+        if isinstance(c_, ast.Call) and isinstance(c_.func, ast.Attribute) and c_.func.attr in ('setdefault', 'update') and c_.args:
+            if isinstance(c_.args[0], ast.Constant):
+                keys_.add(c_.args[0].value)
+            elif isinstance(c_.args[0], ast.Dict):
+                keys_ |= {k_.value if isinstance(k_, ast.Constant) else u(k_) for k_ in c_.args[0].keys}
+            keys_ |= {k_.arg for k_ in c_.keywords if k_.arg}
+        if isinstance(c_, ast.Assign) and isinstance(c_.targets[0], ast.Subscript) and isinstance(c_.targets[0].slice, ast.Constant):
+            keys_.add(c_.targets[0].slice.value)
+        if isinstance(c_, ast.Dict) and c_.keys and all(isinstance(k_, ast.Constant) for k_ in c_.keys) and \
+                any(isinstance(v_, ast.Name) and v_.id.endswith('Parser') for v_ in c_.values):
+            keys_ |= {k_.value for k_ in c_.keys}
+    want_ = {'xml', 'excel-xml', 'sql', 'geojson'}
+    ctx.run.check(keys_ == want_, 'PRS', gcn.where, gcp.qualname, 'custom parsers for %s' % sorted(want_),
+                  'load substitutes its own parser for %s: a format that tabulator reads one record per data line is read by other rules '
+                  '(quoting, escaping), so data lines are merged, split or altered' % sorted(keys_ - want_ or want_ - keys_))
     # cast_strategy=CAST_WITH_SCHEMA hands the rows to schema_validator: "values of the inferred types, or the offending row handled
     # according to on_error" is its row loop (every checked field of every row is cast; shared clause with C14)
     from checks import C14
